@@ -364,14 +364,24 @@ func GenPKG(w *World, maxEdits int, opts ...string) *Scenario {
 		return spec
 	}
 	nPkg := 1 + s.Intn(2, "nPackages")
+	// namesake: the second package has the name of the first and lives in another namespace (its objects
+	// still ask for ns1, so it never rolls out, but it has a deployment, revisions and slices of its own)
+	namesake := has("namesake") && !g.Cluster && s.Chance(1, 3, "namesake")
+	if namesake {
+		nPkg = 2
+	}
 	for i := 0; i < nPkg; i++ {
 		name := fmt.Sprintf("p%d", i+1)
-		key := store.Key{Group: PKOGroup, Kind: g.Kind, Namespace: ns, Name: name}
+		pns := ns
+		if namesake && i == 1 {
+			name, pns = "p1", nsForeign
+		}
+		key := store.Key{Group: PKOGroup, Kind: g.Kind, Namespace: pns, Name: name}
 		g.Keys = append(g.Keys, key)
 		spec := mkSpec()
 		o := store.Obj{"apiVersion": PKOGroup + "/" + PKOVer, "kind": g.Kind, "metadata": map[string]any{"name": name}, "spec": spec}
 		if !g.Cluster {
-			store.Meta(o)["namespace"] = ns
+			store.Meta(o)["namespace"] = pns
 		}
 		chunking := s.Intn(4, "chunking")
 		if sliceHeavy && s.Chance(2, 3, "each-object") {
@@ -391,7 +401,7 @@ func GenPKG(w *World, maxEdits int, opts ...string) *Scenario {
 		}
 		_, err := user.Create(o)
 		must(err)
-		sc.Desc = append(sc.Desc, fmt.Sprintf("%s %s spec=%v annotations=%v", g.Kind, name, spec, store.Annotations(o)))
+		sc.Desc = append(sc.Desc, fmt.Sprintf("%s %s/%s spec=%v annotations=%v", g.Kind, pns, name, spec, store.Annotations(o)))
 	}
 	nE := s.Intn(maxEdits+1, "nEdits")
 	hist := map[store.Key][]map[string]any{}
